@@ -919,6 +919,8 @@ def run_history(box, rng, classes, reqs=None, steps=None, drain_wait=0.0):
         if all(box.delivered(m) >= 1 for m in want):
             break
         time.sleep(0.01)
+    else:
+        box.dirty = True    # an accepted indication may still sit somewhere
     for req, o, info, env in done:
         o["ndeliv"] = box.delivered(req.marker)
         h.events.append({"kind": "req", "cls": req.cls, "obs": o, "env": env,
